@@ -1,4 +1,4 @@
-import MazeVerif.Lemmas.Filters
+import MazeVerif.Lemmas.FilterSharing
 /-! # C08 — dataset filters select exactly what they document and never disturb their input
 
 Model: `MZ.Filt` (`Model/Filters.lean`), a heap of config cells / maze objects / dataset objects; `regStep` is what the
@@ -7,6 +7,12 @@ finite sequence of applications, `applyFromConfig` the config-driven entry point
 is universally quantified.  `Copied h c h' d' ms' g r` (Lemmas) says: `h'` is `h` plus ONE fresh config cell (`c` with the
 record `r` appended and `n_mazes = |ms'|`), fresh maze objects holding exactly `ms'`, and one fresh dataset object `d'`.
 `posFilter f [] l` keeps position `i` of `l` iff `f (l.take i) l[i] (l.drop (i+1))` (`C08_posFilter_index`).
+History level (`Lemmas/FilterSharing.lean`): `Heap.Closed` = no dataset object has a dangling reference; `Heap.Isolated h d` =
+dataset `d` shares neither its config cell nor a maze cell with ANOTHER dataset object (the same maze cell may occur at
+several positions of `d` itself); `Heap.Disjoint` = every dataset is isolated; `Heap.Untouched h h' i` = dataset object `i`
+(config reference, list of maze references, collected metadata), the content of its config cell and the content of each of
+its maze cells (`generation_meta` included) are the same in `h'` as in `h`; `Op.inplaceCollect` = the op is
+`collect_generation_meta` with a truthy bound `inplace`.
 Only property theorems and their non-vacuity examples live here. -/
 namespace MZ.Filt
 open MZ.Gen (PyLit filterTable)
@@ -54,20 +60,6 @@ theorem C08_copied_spec (h : Heap) (d : Nat) (ds : DS) (c : Cfg) (ms : List Maze
       getAll_append_left _ _ _ _ hms]
 
 /-! ## each built-in filter = the documented rule, as a sublist in original order -/
-
-private theorem regStep_method {np : Percentile} {h : Heap} {d : Nat} {f : FName} {vals : List PyLit} {r : FilterRec}
-    {res : Heap × Nat} (hs : regStep np h d f vals r = .ok res) : ∃ h1 nd, method np h d f vals = .ok (h1, nd) := by
-  unfold regStep at hs
-  split at hs
-  · cases hs
-  · next h1 nd hm => exact ⟨h1, nd, hm⟩
-
-private theorem method_view {np : Percentile} {h : Heap} {d : Nat} {f : FName} {vals : List PyLit} {res : Heap × Nat}
-    (hm : method np h d f vals = .ok res) : ∃ ds c ms, h.view d = some (ds, c, ms) := by
-  unfold method at hm
-  split at hm
-  · cases hm
-  · next ds c ms hv => exact ⟨ds, c, ms, hv⟩
 
 /-- `path_length(min_length)`: exactly the mazes with `len(solution) >= min_length`, original order -/
 theorem C08_path_length (np : Percentile) (h : Heap) (d : Nat) (a : PyLit) (r : FilterRec) (h' : Heap) (d' : Nat)
@@ -205,33 +197,19 @@ theorem C08_selection_sublist (ms : List Maze) (p : Maze → Bool) (k : Nat) (f 
 theorem C08_posFilter_index (f : List Maze → Maze → List Maze → Bool) (ms : List Maze) :
     posFilter f [] ms = survivors f [] ms := posFilter_eq_survivors f ms []
 
-/-- `custom_maze_filter(pred)`: exactly the mazes satisfying the predicate, original order, as the SAME maze objects (a
-    sublist of the input's references); a fresh config cell with the record `{name, args = (), kwargs}` appended; nothing
-    that existed before changes -/
+/-- `custom_maze_filter(pred)` (repaired code): exactly the mazes satisfying the predicate, original order, delivered like
+    the registered maze filters' results as a FRESH COPY (`Copied`, spelled out by `C08_copied_spec`): new maze objects holding
+    the kept mazes' values, a new config cell with the record `{name, args = (), kwargs}` appended and `n_mazes` updated, a
+    new dataset object without collected metadata; nothing that existed before changes.  (Before the repair the result
+    referenced the input's maze objects; `C08_sharing_breaks_history` shows what that allowed.) -/
 theorem C08_custom (h : Heap) (d : Nat) (fname : String) (p : Maze → Bool) (kw : List (String × PyLit)) (h' : Heap) (d' : Nat)
     (hs : customFilter h d fname p kw = .ok (h', d')) :
-    ∃ ds c ms ds' c', h.view d = some (ds, c, ms) ∧ h'.view d' = some (ds', c', ms.filter p) ∧
-      ds'.mazes.Sublist ds.mazes ∧ ds'.cfg = h.cfgs.length ∧ d' = h.dsets.length ∧
-      c'.applied = c.applied ++ [{ name := "__custom__:" ++ fname, args := some [], kwargs := kw }] ∧
-      c'.nMazes = (ms.filter p).length ∧ c'.base = c.base ∧
-      h.cfgs <+: h'.cfgs ∧ h'.mazes = h.mazes ∧ h.dsets <+: h'.dsets := by
-  obtain ⟨ds, c, ms, keep, hv, _, rfl, hsub, hget, rfl⟩ := customFilter_spec hs
-  refine ⟨ds, c, ms, { cfg := h.cfgs.length, mazes := keep, gmc := none },
-    { c with applied := c.applied ++ [{ name := "__custom__:" ++ fname, args := some [], kwargs := kw }], nMazes := keep.length },
-    hv, ?_, hsub, rfl, rfl, rfl, ?_, rfl, List.prefix_append _ _, rfl, List.prefix_append _ _⟩
-  · simp [Heap.view, hget]
-  · exact (getAll_length _ _ _ hget).symm
+    ∃ ds c ms, h.view d = some (ds, c, ms) ∧
+      Copied h c h' d' (ms.filter p) none { name := "__custom__:" ++ fname, args := some [], kwargs := kw } := by
+  obtain ⟨ds, c, ms, hv, _, hc⟩ := customFilter_spec hs
+  exact ⟨ds, c, ms, hv, hc⟩
 
 /-! ## the input is left untouched -/
-
-private theorem prefix_of_getElem? {α} (l l' : List α) (hlen : l.length ≤ l'.length)
-    (h : ∀ b : Nat, b < l.length → l'[b]? = l[b]?) : l <+: l' := by
-  rw [List.prefix_iff_eq_take]
-  apply List.ext_getElem?
-  intro b
-  by_cases hb : b < l.length
-  · rw [List.getElem?_take_of_lt hb, h b hb]
-  · rw [List.getElem?_eq_none_iff.2 (by omega), List.getElem?_eq_none_iff.2 (by simp; omega)]
 
 /-- `collect_generation_meta(inplace=False)`, whether or not metadata was collected before: every existing object is
     untouched (old heap = prefix of the new one), the result is a NEW dataset object with a NEW config cell.  Not yet
@@ -283,18 +261,6 @@ theorem C08_collect_copy_untouched (np : Percentile) (h : Heap) (d : Nat) (cl ip
                 rw [f3 b (by simp [List.mem_range'_1]; omega), List.getElem?_append_left hb]
               · rw [e1]; simp
 
-/-- the operation is `collect_generation_meta` called in its documented in-place mode: the bound value of `inplace`
-    (positional, keyword or the default from the generated table) is truthy -/
-def Op.inplaceCollect : Op → Bool
-  | .reg c =>
-    match FName.ofString c.name, filterTable.find? (fun e => e.1 == c.name) with
-    | some .collectMeta, some e =>
-      (match bindParams e.2.2 c.args c.kwargs with
-       | .ok [_, ip, _] => truthy ip
-       | _ => false)
-    | _, _ => false
-  | .custom _ _ _ => false
-
 /-- EVERY filter application other than the documented in-place metadata collection (all filters, all parameters, all
     datasets; `collect_generation_meta(inplace=False)` included, collected before or not): the old heap is a prefix of the
     new one (so the input dataset object, its maze list, every maze object, its config cell and every other existing object
@@ -327,10 +293,9 @@ theorem C08_input_untouched (np : Percentile) (h : Heap) (d : Nat) (op : Op) (h'
       obtain ⟨⟨ds', c', hv', _, _, _, _, hcfg, _, _⟩, hd, p1, p2, p3, hvd⟩ := C08_copied_spec h d ds c ms0 h' d' ms g call.record hv hcop
       exact ⟨p1, p2, p3, hd, ⟨ds', (view_cfgOf hv').2.1, hcfg⟩, by rw [hvd, hv]⟩
   | custom fname p kw =>
-    obtain ⟨ds, c, ms, ds', c', hv, hv', _, hcfg, hd, _, _, _, p1, p2, p3⟩ := C08_custom h d fname p kw h' d' hs
-    have p2' : h.mazes <+: h'.mazes := by rw [p2]; exact List.prefix_refl _
-    refine ⟨p1, p2', p3, hd, ⟨ds', (view_cfgOf hv').2.1, hcfg⟩, ?_⟩
-    rw [hv]; exact view_mono p1 p2' p3 hv
+    obtain ⟨ds, c, ms, hv, hcop⟩ := C08_custom h d fname p kw h' d' hs
+    obtain ⟨⟨ds', c', hv', _, _, _, _, hcfg, _, _⟩, hd, p1, p2, p3, hvd⟩ := C08_copied_spec h d ds c ms h' d' _ none _ hv hcop
+    exact ⟨p1, p2, p3, hd, ⟨ds', (view_cfgOf hv').2.1, hcfg⟩, by rw [hvd, hv]⟩
 
 /-! ## metadata collection -/
 
@@ -506,12 +471,154 @@ theorem C08_from_config_eq_by_hand (np : Percentile) (h : Heap) (d : Nat) (h0 : 
       rw [happ]
       simp [checkFilterEquality_self old hargs hkw]
 
+/-! ## history level: no sharing, so later operations on results never disturb earlier datasets -/
+
+/-- `Heap.Closed` is nothing exotic: a heap in which every dataset object can be viewed (its config cell and all its maze
+    cells exist) is closed -/
+theorem C08_closed_of_views (h : Heap) (hv : ∀ i, i < h.dsets.length → (h.view i).isSome = true) : h.Closed :=
+  closed_of_views hv
+
+/-- what `Untouched` gives in observable terms: the dataset views exactly as before (same dataset object incl. collected
+    metadata, same config content, same maze values incl. `generation_meta`), cell by cell -/
+theorem C08_untouched_spec (h h' : Heap) (i : Nat) (hu : h.Untouched h' i) :
+    h'.view i = h.view i ∧ cfgOf h' i = cfgOf h i ∧ h'.dsets[i]? = h.dsets[i]? ∧
+    ∀ ds, h.dsets[i]? = some ds → h'.cfgs[ds.cfg]? = h.cfgs[ds.cfg]? ∧ ∀ a ∈ ds.mazes, h'.mazes[a]? = h.mazes[a]? :=
+  ⟨hu.view_eq.1, hu.view_eq.2, hu.1, hu.2⟩
+
+/-- which cells ONE successful filter application (any filter, custom included, any arguments) allocates or writes:
+    either it is not an in-place collection, and then the old heap is a prefix of the new one and exactly one dataset object
+    was appended whose config cell and maze cells are all NEW (`FreshStep`); or it is the documented in-place collection,
+    and then nothing is allocated, the same dataset object is returned and only its own `gmc`, its own config cell and its
+    own maze cells may change (`InPlaceStep`) -/
+theorem C08_step_shape (np : Percentile) (h : Heap) (d : Nat) (op : Op) (h' : Heap) (d' : Nat)
+    (hs : applyOp np h d op = .ok (h', d')) :
+    (op.inplaceCollect = false ∧ FreshStep h h' d') ∨ (op.inplaceCollect = true ∧ InPlaceStep h d h' d') :=
+  applyOp_shape hs
+
+/-- NO SHARING is an invariant of every filter application: in a closed heap in which no maze cell and no config cell is
+    referenced by two different dataset objects, applying any filter (all eight registered ones with any arguments — the
+    in-place and the copying mode of `collect_generation_meta` and `strip_generation_meta` included — and
+    `custom_maze_filter`) to any dataset gives again such a heap -/
+theorem C08_no_sharing (np : Percentile) (h : Heap) (d : Nat) (op : Op) (h' : Heap) (d' : Nat)
+    (hc : h.Closed) (hdis : h.Disjoint) (hs : applyOp np h d op = .ok (h', d')) : h'.Closed ∧ h'.Disjoint :=
+  step_disjoint hc hdis hs
+
+/-- … and therefore of every finite sequence of applications -/
+theorem C08_no_sharing_seq (np : Percentile) (ops : List Op) (h : Heap) (d : Nat) (h' : Heap) (d' : Nat)
+    (hc : h.Closed) (hdis : h.Disjoint) (hr : runSeq np h d ops = .ok (h', d')) : h'.Closed ∧ h'.Disjoint :=
+  runSeq_disjoint np ops h d h' d' hc hdis hr
+
+/-- the weaker start condition suffices for the dataset being worked on: if only the START dataset is isolated (other
+    datasets of the heap may share cells among themselves), then after any finite sequence of applications the CURRENT
+    result is isolated, and it is the start dataset itself (only in-place collections ran) or an object allocated later -/
+theorem C08_result_isolated (np : Percentile) (ops : List Op) (h : Heap) (d : Nat) (h' : Heap) (d' : Nat)
+    (hc : h.Closed) (hiso : h.Isolated d) (hr : runSeq np h d ops = .ok (h', d')) :
+    h'.Closed ∧ h'.Isolated d' ∧ h.dsets.length ≤ h'.dsets.length ∧ (d' = d ∨ h.dsets.length ≤ d') := by
+  obtain ⟨a, b, c, e, _⟩ := runSeq_sharing np ops h d h' d' hc hiso hr
+  exact ⟨a, b, c, e⟩
+
+/-- one application, every earlier dataset: in a closed heap whose current dataset `d` is isolated, every dataset object
+    `i` that exists and is not the in-place target (`i ≠ d`, or the op is not an in-place collection) is untouched -/
+theorem C08_step_untouched (np : Percentile) (h : Heap) (d : Nat) (op : Op) (h' : Heap) (d' : Nat)
+    (hc : h.Closed) (hiso : h.Isolated d) (hs : applyOp np h d op = .ok (h', d')) (i : Nat) (hi : i < h.dsets.length)
+    (hne : i ≠ d ∨ op.inplaceCollect = false) : h.Untouched h' i :=
+  (step_sharing hc hiso hs).2.2.2.2 i hi hne
+
+/-- LATER OPERATIONS ON RESULTS NEVER DISTURB EARLIER DATASETS.  Take any closed heap whose start dataset `d` shares no maze
+    cell and no config cell with the other datasets, and any successful finite sequence `ops1 ++ op :: ops2` of filter
+    applications (each applied to the previous result).  Let `(h1, d1)` be the state just before `op`.  Then every dataset
+    object `i` that existed at that moment and is not `op`'s in-place target (`i ≠ d1`, or `op` is not an in-place
+    collection) is `Untouched` from `h1` to the FINAL heap `h'` — by `op` and by everything after it: its maze list, the
+    contents of its maze cells (`generation_meta` included), its collected metadata, its config reference and the content
+    of its config cell are the same, and it views exactly as before. -/
+theorem C08_history_untouched (np : Percentile) (ops1 : List Op) (op : Op) (ops2 : List Op) (h : Heap) (d : Nat)
+    (h' : Heap) (d' : Nat) (hc : h.Closed) (hiso : h.Isolated d)
+    (hr : runSeq np h d (ops1 ++ op :: ops2) = .ok (h', d')) :
+    ∃ h1 d1, runSeq np h d ops1 = .ok (h1, d1) ∧
+      ∀ i, i < h1.dsets.length → (i ≠ d1 ∨ op.inplaceCollect = false) → h1.Untouched h' i ∧ h'.view i = h1.view i := by
+  rw [runSeq_append] at hr
+  cases h1r : runSeq np h d ops1 with
+  | error e => rw [h1r] at hr; cases hr
+  | ok res =>
+    obtain ⟨h1, d1⟩ := res
+    rw [h1r] at hr
+    simp only at hr
+    refine ⟨h1, d1, rfl, fun i hi hne => ?_⟩
+    obtain ⟨c1, i1, _, _, _⟩ := runSeq_sharing np ops1 h d h1 d1 hc hiso h1r
+    unfold runSeq at hr
+    split at hr
+    · cases hr
+    · next h2 d2 hs =>
+      obtain ⟨c2, i2, l2, hd2, u2⟩ := step_sharing c1 i1 hs
+      obtain ⟨_, _, _, _, u3⟩ := runSeq_sharing np ops2 h2 d2 h' d' c2 i2 hr
+      have hne2 : i ≠ d2 := by
+        rcases hd2 with ⟨hop, e⟩ | ⟨_, e⟩
+        · rcases hne with hne | hne
+          · rw [e]; exact hne
+          · rw [hop] at hne; cases hne
+        · omega
+      have hu := (u2 i hi hne).trans (u3 i (by omega) hne2)
+      exact ⟨hu, hu.view_eq.1⟩
+
+/-- the start dataset itself: as long as no in-place collection is among the operations, the start dataset (and every
+    other dataset of the start heap) is untouched by the whole sequence — the property's "the input dataset's mazes and
+    configuration are left unchanged", over all finite sequences, maze CONTENTS included -/
+theorem C08_start_untouched (np : Percentile) (ops : List Op) (h : Heap) (d : Nat) (h' : Heap) (d' : Nat)
+    (hc : h.Closed) (hiso : h.Isolated d) (hops : ∀ op ∈ ops, op.inplaceCollect = false)
+    (hr : runSeq np h d ops = .ok (h', d')) (i : Nat) (hi : i < h.dsets.length) :
+    h.Untouched h' i ∧ h'.view i = h.view i := by
+  cases ops with
+  | nil =>
+    simp only [runSeq, Except.ok.injEq, Prod.mk.injEq] at hr
+    obtain ⟨rfl, rfl⟩ := hr
+    exact ⟨Heap.Untouched.refl _ _, rfl⟩
+  | cons op ops =>
+    obtain ⟨h1, d1, h1r, hu⟩ := C08_history_untouched np [] op ops h d h' d' hc hiso (by simpa using hr)
+    simp only [runSeq, Except.ok.injEq, Prod.mk.injEq] at h1r
+    obtain ⟨rfl, rfl⟩ := h1r
+    exact hu i hi (Or.inr (hops op (by simp)))
+
+private def shMaze : Maze :=
+  { shape := [2, 1, 1], conn := [false, false], startPos := (0, 0), endPos := (0, 0), sol := [(0, 0)],
+    gmeta := some [("kind", .scalar "a")] }
+/-- dataset #1 references the maze cell of dataset #0 — what `custom_maze_filter` produced before the repair -/
+private def shHeap : Heap :=
+  { cfgs := [{ base := 0, nMazes := 1, applied := [] }, { base := 0, nMazes := 1, applied := [] }],
+    mazes := [shMaze], dsets := [{ cfg := 0, mazes := [0], gmc := none }, { cfg := 1, mazes := [0], gmc := none }] }
+private def shOp : Op := .reg { name := "collect_generation_meta", args := [], kwargs := [] }
+
+/-- the hypothesis "no sharing" cannot be dropped, and this is exactly the repaired defect: there is a closed heap in which
+    dataset #1 references a maze cell of dataset #0 (what `custom_maze_filter` produced before the repair) and on which the
+    documented in-place collection on #1 succeeds, returns #1, and changes what dataset #0 — not the target — views
+    (`generation_meta` of its maze is stripped) -/
+theorem C08_sharing_breaks_history :
+    ∃ (np : Percentile) (h : Heap) (op : Op) (h' : Heap), h.Closed ∧ ¬ h.Isolated 1 ∧ op.inplaceCollect = true ∧
+      applyOp np h 1 op = .ok (h', 1) ∧ h'.view 0 ≠ h.view 0 ∧
+      (h.view 0).map (fun x => x.2.2.map (·.gmeta.isSome)) = some [true] ∧
+      (h'.view 0).map (fun x => x.2.2.map (·.gmeta.isSome)) = some [false] := by
+  refine ⟨fun _ _ => .error .other, shHeap, shOp,
+    { cfgs := [{ base := 0, nMazes := 1, applied := [] },
+               { base := 0, nMazes := 1, applied := [{ name := "collect_generation_meta", args := some [], kwargs := [] }] }],
+      mazes := [{ shMaze with gmeta := none }],
+      dsets := [{ cfg := 0, mazes := [0], gmc := none }, { cfg := 1, mazes := [0], gmc := some [("kind", [(.atom "a", 1)])] }] },
+    ?_, ?_, by decide, by rfl, by decide, by decide, by decide⟩
+  · apply closed_of_views
+    intro i hi
+    have : i = 0 ∨ i = 1 := by simp [shHeap] at hi; omega
+    rcases this with rfl | rfl <;> decide
+  · intro hiso
+    exact (hiso { cfg := 1, mazes := [0], gmc := none } 0 { cfg := 0, mazes := [0], gmc := none } rfl rfl (by decide)).2 0 (by simp) (by simp)
+
 /-! ## the full statement, kept visible -/
 
 /-- C08 in the model, the clauses that are not per-filter: (1) nothing that existed is disturbed by any filter application
-    but the documented in-place metadata collection, (2) provenance for every finite sequence of applications, (3) exact metadata counts.  The per-filter
-    selection clauses are `C08_path_length` … `C08_custom` (each with `C08_copied_spec`), the in-place collection is
-    `C08_collect_inplace`, config-driven = by hand is `C08_from_config_eq_by_hand`; all are proved, none is partial. -/
+    but the documented in-place metadata collection, (2) provenance for every finite sequence of applications, (3) exact
+    metadata counts, (4) history: along every finite sequence of applications started on a dataset that shares no cell with
+    the others, every dataset that existed before an operation and is not that operation's in-place target is `Untouched`
+    (maze list, maze cell contents incl. `generation_meta`, collected metadata, config) by it and by all later operations,
+    and "no sharing" itself is preserved.  The per-filter selection clauses are `C08_path_length` … `C08_custom` (each with
+    `C08_copied_spec`), the in-place collection is `C08_collect_inplace`, config-driven = by hand is
+    `C08_from_config_eq_by_hand`; all are proved, none is partial. -/
 def C08_full : Prop :=
   (∀ (np : Percentile) (h : Heap) (d : Nat) (op : Op) (h' : Heap) (d' : Nat), op.inplaceCollect = false →
       applyOp np h d op = .ok (h', d') →
@@ -522,10 +629,16 @@ def C08_full : Prop :=
         (ops ≠ [] → ∃ ds', h'.dsets[d']? = some ds' ∧ c'.nMazes = ds'.mazes.length)) ∧
   (∀ (clear allowFail : Bool) (mz : List Maze) (as : List Nat) (mz' : List Maze) (g' : Collected), as.Nodup →
       (∀ a ∈ as, ∃ m kv, mz[a]? = some m ∧ m.gmeta = some kv) → collectLoop clear allowFail mz [] as = .ok (mz', g') →
-      ∀ k v, (g'.get k).get v = occAll mz k v as)
+      ∀ k v, (g'.get k).get v = occAll mz k v as) ∧
+  (∀ (np : Percentile) (ops1 : List Op) (op : Op) (ops2 : List Op) (h : Heap) (d : Nat) (h' : Heap) (d' : Nat),
+      h.Closed → h.Isolated d → runSeq np h d (ops1 ++ op :: ops2) = .ok (h', d') →
+      ∃ h1 d1, runSeq np h d ops1 = .ok (h1, d1) ∧
+        ∀ i, i < h1.dsets.length → (i ≠ d1 ∨ op.inplaceCollect = false) → h1.Untouched h' i ∧ h'.view i = h1.view i) ∧
+  (∀ (np : Percentile) (ops : List Op) (h : Heap) (d : Nat) (h' : Heap) (d' : Nat),
+      h.Closed → h.Disjoint → runSeq np h d ops = .ok (h', d') → h'.Closed ∧ h'.Disjoint)
 
 theorem C08_full_holds : C08_full := by
-  refine ⟨?_, ?_, ?_⟩
+  refine ⟨?_, ?_, ?_, ?_, ?_⟩
   · intro np h d op h' d' hop hs
     obtain ⟨a, b, c, e, _, f⟩ := C08_input_untouched np h d op h' d' hop hs
     exact ⟨a, b, c, e, f⟩
@@ -534,6 +647,10 @@ theorem C08_full_holds : C08_full := by
     exact ⟨c', a, b, e⟩
   · intro clear allowFail mz as mz' g' hnd hall hl k v
     exact C08_meta_counts clear allowFail mz as mz' g' hnd hall hl k v
+  · intro np ops1 op ops2 h d h' d' hc hiso hr
+    exact C08_history_untouched np ops1 op ops2 h d h' d' hc hiso hr
+  · intro np ops h d h' d' hc hdis hr
+    exact C08_no_sharing_seq np ops h d h' d' hc hdis hr
 
 /-! ## non-vacuity: a concrete heap on which every theorem's hypotheses are met and the functions do something -/
 
@@ -568,6 +685,38 @@ example : lens (applyOp exNp exHeap 0 (call "remove_duplicates" [.none, .int 0])
 example : lens (applyOp exNp exHeap 0 (call "remove_duplicates_fast" [])) = some [2, 3, 2, 4, 3] := by decide
 example : lens (applyOp exNp exHeap 0 (call "strip_generation_meta" [])) = some [2, 3, 2, 2, 4, 3] := by decide
 example : lens (applyOp exNp exHeap 0 (.custom "lenmod" (fun m => m.sol.length % 2 == 0) [("k", .int 2)])) = some [2, 2, 2, 4] := by decide
+/-- the repaired custom filter delivers fresh maze objects (#6..#9), a fresh config (#1) and a fresh dataset object (#1) -/
+example : (match applyOp exNp exHeap 0 (.custom "lenmod" (fun m => m.sol.length % 2 == 0) [("k", .int 2)]) with
+    | .ok (h', d') => (h'.dsets[d']?).map (fun ds => (d', ds.cfg, ds.mazes, h'.mazes.length))
+    | .error _ => none) = some (1, 1, [6, 7, 8, 9], 10) := by decide
+/-- the start heap of the examples is closed and its only dataset is isolated / the heap is disjoint -/
+private theorem exHeap_closed : exHeap.Closed := by
+  apply closed_of_views
+  intro i hi
+  have : i = 0 := by simp [exHeap] at hi; omega
+  subst this; decide
+private theorem exHeap_disjoint : exHeap.Disjoint := by
+  intro d ds j dj hd hj hne
+  have h1 : d = 0 := by have := idx_lt_of_getElem? hd; simp [exHeap] at this; omega
+  have h2 : j = 0 := by have := idx_lt_of_getElem? hj; simp [exHeap] at this; omega
+  omega
+example : exHeap.Closed ∧ exHeap.Isolated 0 ∧ exHeap.Disjoint := ⟨exHeap_closed, exHeap_disjoint 0, exHeap_disjoint⟩
+/-- the defect scenario on the repaired model: custom filter, then the documented in-place collection (clearing) on the
+    RESULT: the result's own mazes (#6..#9) are stripped, ALL mazes of the input dataset #0 keep their `generation_meta`,
+    the input's config and collected metadata are as before (`C08_history_untouched` with `ops1 = [custom]`, `i = 0`) -/
+example : (match runSeq exNp exHeap 0 [.custom "lenmod" (fun m => m.sol.length % 2 == 0) [("k", .int 2)], call "collect_generation_meta" []] with
+    | .ok (h', d') => (h'.view 0).bind (fun v0 => (h'.view d').map (fun v1 =>
+        (d', v1.2.2.length, [v0.2.2.all (fun m => m.gmeta.isSome), v1.2.2.all (fun m => m.gmeta.isNone), v0.1.gmc.isNone, v1.1.gmc.isSome,
+         (h'.view 0 == exHeap.view 0)])))
+    | .error _ => none) = some (1, 4, [true, true, true, true, true]) := by decide
+/-- a longer history: three intermediate datasets, in-place collections on #1 (not clearing) and on #3 (clearing); #0 and #2
+    never change (#2's mazes keep their metadata), #1 does not change after the run moved on from it -/
+example : (match runSeq exNp exHeap 0 [.custom "lenmod" (fun _ => true) [], call "collect_generation_meta" [.bool false], call "path_length" [.int 3],
+                                       .custom "lenmod" (fun m => m.sol.length % 2 == 1) [], call "collect_generation_meta" [] [("clear_in_mazes", .bool true)]],
+                 runSeq exNp exHeap 0 [.custom "lenmod" (fun _ => true) [], call "collect_generation_meta" [.bool false]] with
+    | .ok (h', d'), .ok (h1, _) => some (d', h'.dsets.length, [(h'.view 0 == exHeap.view 0), (h'.view 1 == h1.view 1)],
+        [(h'.view 2).map (fun v => v.2.2.map (fun m => m.gmeta.isSome)), (h'.view 3).map (fun v => v.2.2.map (fun m => m.gmeta.isSome))])
+    | _, _ => none) = some (3, 4, [true, true], [some [true, true, true], some [false, false]]) := by decide
 /-- the documented in-place collection returns the same object; exact counts: "a" three times, (0,0) six times -/
 example : (match applyOp exNp exHeap 0 (call "collect_generation_meta" []) with
     | .ok (h', d') => (h'.dsets[d']?).bind (fun ds => ds.gmc.map (fun g =>
